@@ -58,6 +58,13 @@ def _build():
         for pb in ("first", "mid", "last"):
             _reg(S.schema2("cat_%s_x_cat_%s" % (pa, pb), A[pa], B[pb], weighted=True), W, quick=3, thorough=4)
     _reg(S.schema2("cat_x_cat3_unw", A["last"], B3), quick=3, thorough=5)
+    # categories re-ordered by `type.order` (the data follows that order, the category list does not)
+    from mc.model import CatVar
+    AO = CatVar("a", A["mid"].cats, type_order=[2, -1, 1])
+    BO = CatVar("b", B3.cats, type_order=[3, 1, -1, 2])
+    _reg(S.schema2("cat_ordered_x_cat_ordered", AO, BO, weighted=True), W, quick=3, thorough=4)
+    _reg(S.schema2("cat_ordered_x_mr", AO, M), quick=2, thorough=3)
+    _reg(Schema("cat_ordered_1d", [BO], [("cat", 0)]), quick=3, thorough=5)
     _reg(S.schema2("cat3_x_cat_w", B3, A["first"], weighted=True), W, quick=3, thorough=4)
     _reg(S.schema2("catdate_x_cat", D, B["mid"], weighted=True), W, quick=3, thorough=4)
     for t, e in E.items():
